@@ -79,6 +79,22 @@ PROPS["C15"] = {
     "explanation": "loop invariant over 12 accumulators + three bridge identities carried through the loop with ghost means",
 }
 
+PROPS["C20"] = {
+    "modules": ["contracts.ops_tinterpolate"],
+    "contracts": ["ghost:contracts/ghost_tint.py::cntpos_mono", "ghost:contracts/ghost_tint.py::rid_mono", "ghost:contracts/ghost_tint.py::future_run_empty",
+                  "hdc/algo/ops/tinterpolate.py::tinterpolate"],
+    "standin": True,
+    "level": "proof",
+    "trusted": ["z3 5.1 / cvc5 1.0.3", "ws2d is used through its contract only (C01 discharges it)", "ndarray.copy, python round() = half-to-even (assumed)",
+                "accessor whitint (apply_ufunc, output length, dtype check): bounded stand-in"],
+    "not_proved": ["'constant series -> constant' and 'linear series -> exact period means' need uniqueness of the ws2d solution (s.p.d. system), which is a mathematical fact not re-proved here: bounded stand-in with an exact rational oracle",
+                   "float64 conditioning of the lmda = 1e-5 system: bounded"],
+    "assumptions": ["floats are exact reals (model R)", "int16 range of the rounded means is the statement's domain restriction"],
+    "level_text": "tinterpolate: for all templates (0/1 marks, as many marks as observations, length >= 4), labelings in contiguous runs and observation series: the observations are scattered to the marks, the solver is called within its contract, the returned values are the half-even rounded means of that daily curve over each label run, every output element is written, every subscript is in bounds and no input array is stored to; two loop invariants + three ghost induction lemmas, all discharged by z3",
+    "level_note": "trusted: z3/cvc5; model R; ws2d via contract; uniqueness-based clauses and accessor only bounded; Numba faithful (C13)",
+    "explanation": "scatter invariant over cntpos, run-length invariant over rid/rsum/rcnt, written bitmap, frame obligations",
+}
+
 ALL = ["C%02d" % i for i in range(1, 21)]
 NOT_APPLICABLE = {
     "C13": "statement about Numba's type inference/lowering and the ctypes binding of SciPy kernels (the translator), not about functions of /repo: no contract on hdc-algo source can establish or refute it; it is the stated assumption of every proof here",
